@@ -343,14 +343,15 @@ void BinaryFileReader::read_prop_chunk(Decoder &reader)
         case PropertyEntity::HalfFace: n = 2 * n_faces_read_; break;
         case PropertyEntity::Mesh:     n = 1; break;
     }
-    if (header.span.empty()) return;
-    if (header.span.first >= n || n - header.span.first < header.span.count) {
+    // an empty span has to lie inside the range as well
+    if (header.span.first > n || n - header.span.first < header.span.count) {
         error_msg_ = std::string("Property chunk ") + std::to_string(header.idx)
             + " has invalid span " + to_string(header.span)
             + ", element count is only " + std::to_string(n);
         state_ = ReadState::ErrorHandleRange;
         return;
     }
+    if (header.span.empty()) return;
     prop.decoder->deserialize(prop.prop.get(),
             reader,
             static_cast<size_t>(header.span.first),
